@@ -18,6 +18,8 @@ def call_model(I, fn, args, kwargs):
     name = getattr(fn, "__name__", str(fn))
     if fn is len:
         (x,) = args
+        if has_gitems(x):
+            x = as_glist(x)
         if isinstance(x, WhereResult):
             return I.count_true([I.truth(m) for m in x.mask.items])
         if isinstance(x, FD):
@@ -36,6 +38,30 @@ def call_model(I, fn, args, kwargs):
             return len(x)
         except TypeError as ex:
             raise PyRaise(ex)
+    if name == "join" and isinstance(getattr(fn, "__self__", None), str):
+        sep = fn.__self__
+        out = []
+        for i, p_ in enumerate(I.iterate(args[0])):
+            if i and sep:
+                out.append(sep)
+            if isinstance(p_, FD) and not all(isinstance(v, str) for _, v in p_.cases):
+                p_ = I.prune(p_)
+                if isinstance(p_, FD) and not all(isinstance(v, str) for _, v in p_.cases):
+                    if I.branch(z3.Or(*[g for g, v in p_.cases if not isinstance(v, str)])):
+                        raise PyRaise(TypeError("sequence item: expected str instance"))
+                    p_ = I.prune(p_)
+            elif not isinstance(p_, (str, SymStr, FD)):
+                raise PyRaise(TypeError("sequence item: expected str instance"))
+            out.append(p_)
+        return mk_str(out)
+    if isinstance(getattr(fn, "__self__", None), str) and isinstance(fn, types.BuiltinMethodType):
+        # concrete string receiver with symbolic arguments
+        recv = fn.__self__
+        if name == "count" and len(args) == 1:
+            a = args[0]
+            if isinstance(a, FD):
+                return mk_fd_apply(I, _native1(recv.count), a)
+        raise Unsupported("str.%s with symbolic argument" % name)
     if fn is float:
         (x,) = args
         if isinstance(x, FD):
